@@ -3,7 +3,8 @@
 
   The objects: `ALV.Gen.Windows` is REGENERATED from the repo's formula table and code templates
   on every check (translator T2); `ALV.C14.call` is the hand-written model of the registry built by
-  `_generate_window_strategies` applied to those generated definitions; `ALV.C14.sample`,
+  `_generate_window_strategies` applied to those generated definitions — proved in Part 2b to be the run of
+  `ALV.Gen.C14.generateWindowStrategies`, the loop REGENERATED from the source text (translator T2b) —; `ALV.C14.sample`,
   `periodic`, `symmetric`, `resolve`, `hopSum`, `colaConst` are the hand-written specification.
 
   Part 1 holds for every number class (`Float` included: these are statements about the very terms
@@ -12,6 +13,8 @@
 -/
 import ALV.Lemmas.C14
 import ALV.Lemmas.C14Call
+import ALV.Lemmas.C14Src
+import ALV.Gen.C14Src
 import ALV.Common.Audit
 
 namespace ALV.Props.C14
@@ -174,6 +177,38 @@ theorem defaults : generated.window.default = generated.window.get "hann" ∧
 
 /-- `window.symm is wsymm`, `wsymm.symm is wsymm`, `window.periodic is window`, `wsymm.periodic is window` -/
 theorem dict_links (d : DictId) : dictSymm d = .wsymm ∧ dictPeriodic d = .window := ⟨rfl, rfl⟩
+
+/-! ## Part 2b — the loop `_generate_window_strategies` itself, REGENERATED from the source (translator T2b)
+
+`ALV.Gen.C14.generateWindowStrategies` is the program (`ALV.C14.Loop.Prog`) the translator reads from the text of
+the function on every run; `ALV.C14.Loop.model` is the reading of it that the hand-written `genStep` was made for. -/
+
+/-- **the source still says what the model says**: statement by statement — which field the names come from, that
+    `sname` is `names[0]` and is what the template is formatted with, the `params_def` default, the order
+    `[window, wsymm]`, which dictionary's template is exec'ed and into which names (`pi`, `sin`, `cos`, `xrange` of
+    `math` / `lazy_compat`), the decorators and their order, `wsymm[sname] = window[sname]; break` for rows that are
+    not distinct (default: distinct), both attribute lines; and the module calls the function exactly once -/
+theorem src_generate_window_strategies_is_model :
+    ALV.Gen.C14.generateWindowStrategies = ALV.C14.Loop.model := rfl
+
+/-- **every iteration of the regenerated loop is `genStep`**, for all states and all rows that have a name -/
+theorem src_generate_window_strategies_row (st : State) (row : Row) (h : row.names ≠ []) :
+    Loop.runRow ALV.Gen.C14.generateWindowStrategies st row = some (genStep st row) := by
+  rw [src_generate_window_strategies_is_model]; exact Loop.model_row st row h
+
+/-- **the regenerated loop run on the regenerated table leaves the module state of the model**: every theorem about
+    `generated` (names, aliases, links, defaults, and through `call` all the others) is about what the text of
+    `_generate_window_strategies` does to the table of `lazy_analysis.py` as they are NOW.  By evaluation of the
+    interpreter: independent of `src_generate_window_strategies_is_model` (a rewrite of the loop that builds the
+    same registry keeps this one) -/
+theorem src_generated_is_model :
+    Loop.runTable ALV.Gen.C14.generateWindowStrategies rows = some generated := by
+  decide
+
+/-- the same for any table (rows with a name), through `Loop.model` -/
+theorem src_generate_window_strategies_table (rs : List Row) (h : ∀ r ∈ rs, r.names ≠ []) :
+    Loop.runTable ALV.Gen.C14.generateWindowStrategies rs = some (rs.foldl genStep {}) := by
+  rw [src_generate_window_strategies_is_model]; exact Loop.model_table rs h
 
 /-! ## Part 3 — refinement: the generated code computes the documented closed forms (over ℝ) -/
 
@@ -571,6 +606,13 @@ example : ((runHistory (α := ℝ)
   have h : call (α := ℝ) .window (some "hann") 4 none = _ :=
     call_eq_spec false .hann "hann" (by decide) (by decide) 4 none
   simp [runHistory, Step.call, h, specList]
+
+-- the regenerated loop: a row with aliases that is not distinct, from a state that already has a strategy
+example : (⟨["rect", "dirichlet"], false, []⟩ : Row).names ≠ [] := by decide
+example : (Loop.runRow ALV.Gen.C14.generateWindowStrategies generated ⟨["r", "q"], false, []⟩).map
+      (fun st => (st.wsymm.get "r", st.wsymm.get "q", st.window.get "q", st.symmOf ⟨"r", false⟩))
+    = some (some ⟨"r", false⟩, none, some ⟨"r", false⟩, some ⟨"r", false⟩) := by decide
+example : ∀ r ∈ rows, r.names ≠ [] := by decide
 
 -- the call layer
 example : "beta" ≠ "size" ∧ "beta" ≠ "alpha" := by decide
